@@ -123,11 +123,37 @@ def discharge(ob: Obligation, timeout_ms: Optional[int] = None) -> Obligation:
                 if v in ("unsat", "sat"):
                     verdict, who = v, name
                     break
+        if verdict == "unknown":
+            # look for a counter-model on small concrete instances (a model found this way is a
+            # genuine counterexample; failing to find one decides nothing)
+            ints = _int_consts(hyps + [ob.goal])
+            s3 = z3.Solver()
+            s3.set("timeout", 5000)
+            s3.add(*hyps)
+            s3.add(z3.Not(ob.goal))
+            found = None
+            for val in (2, 3, 1, 4):
+                for k_ in range(0, min(len(ints), 3) + 1):
+                    s3.push()
+                    for c in ints[k_:]:
+                        if not str(c).startswith(("n_valid", "bmul")):
+                            s3.add(c == val)
+                    if s3.check() == z3.sat:
+                        found = s3.model()
+                    s3.pop()
+                    if found is not None:
+                        break
+                if found is not None:
+                    break
+            if found is not None:
+                verdict, who = "sat", "z3-5.1(pinned small instance)"
+                ob._z3model = found  # type: ignore[attr-defined]
+                ob.model = _model_dict(found)
         if verdict == "unsat":
             ob.status, ob.solver = "discharged", who
         elif verdict == "sat":
             ob.status, ob.solver = "violated", who
-            ob.model = {}
+            ob.model = ob.model or {}
         else:
             ob.status, ob.solver = "undecided", "z3-5.1,cvc5-1.0.3,z3-4.8.12"
     ob.time_s = time.time() - t0
